@@ -2245,6 +2245,78 @@ pub fn batch_subscribe_entry() -> Value {
 }
 
 // ------------------------------------------------------------------------------------------
+/// C06: an unsubscribe that arrives right after the accepting response names an ACTIVE subscription: it is answered true (and a
+/// repeat false). The client unsubscribes the moment it has read the response; the server's handler task and the connection
+/// task run on different worker threads, so the unsubscribe races with whatever `accept()` still has to do after queueing the
+/// response. Real WS server (4 worker threads), raw frames, `rounds` subscriptions one after the other.
+pub fn accept_then_immediate_unsubscribe() -> Value {
+	use jsonrpsee_client_transport::ws::WsTransportClientBuilder;
+	use jsonrpsee_core::client::{ReceivedMessage, TransportReceiverT, TransportSenderT};
+	let rounds = 150usize;
+	let mut wrong: Vec<String> = Vec::new();
+	for round in 0..rounds {
+		// a fresh 2-thread runtime, server and connection per round: the FIRST subscription meets cold tasks, and the handler
+		// task, the connection task and the client share two workers
+		let res = tokio::runtime::Builder::new_multi_thread().worker_threads(2).enable_all().build().unwrap().block_on(async move {
+			let server = jsonrpsee_server::Server::builder().build("127.0.0.1:0").await.map_err(|e| e.to_string())?;
+			let addr = server.local_addr().unwrap();
+			let (ev_tx, ev_rx) = std::sync::mpsc::channel::<String>();
+			let mut module = RpcModule::new(ev_tx);
+			module
+				.register_subscription("sub", "notif", "unsub", |_, pending, ctx, _| async move {
+					let sink = match pending.accept().await { Ok(s) => s, Err(_) => { let _ = ctx.send("accept failed".into()); return } };
+					let _ = ctx.send("accepted".into());
+					sink.closed().await;
+					let _ = ctx.send(format!("closed() returned, is_closed={}", sink.is_closed()));
+				})
+				.unwrap();
+			let _handle = server.start(module);
+			let url = url::Url::parse(&format!("ws://{}", addr)).unwrap();
+			let (mut tx, mut rx) = WsTransportClientBuilder::default().build(url).await.map_err(|e| e.to_string())?;
+			async fn reply_to<R: TransportReceiverT>(rx: &mut R, id: u64) -> Value {
+				for _ in 0..8 {
+					let f: Option<Value> = match tokio::time::timeout(std::time::Duration::from_millis(2000), rx.receive()).await {
+						Ok(Ok(ReceivedMessage::Text(t))) => serde_json::from_str(&t).ok(),
+						Ok(Ok(ReceivedMessage::Bytes(b))) => serde_json::from_slice(&b).ok(),
+						_ => None,
+					};
+					match f { Some(v) if v["id"] == json!(id) => return v, Some(_) => continue, None => return Value::Null }
+				}
+				Value::Null
+			}
+			let _ = tx.send(json!({"jsonrpc":"2.0","id":1,"method":"sub"}).to_string()).await;
+			let acc = reply_to(&mut rx, 1).await;
+			let sid = acc["result"].clone();
+			if sid.is_null() { return Err(format!("subscribe not accepted: {acc}")); }
+			let _ = tx.send(json!({"jsonrpc":"2.0","id":2,"method":"unsub","params":[sid]}).to_string()).await;
+			let first = reply_to(&mut rx, 2).await;
+			let _ = tx.send(json!({"jsonrpc":"2.0","id":3,"method":"unsub","params":[sid]}).to_string()).await;
+			let second = reply_to(&mut rx, 3).await;
+			tokio::time::sleep(std::time::Duration::from_millis(20)).await;
+			let evs: Vec<String> = ev_rx.try_iter().collect();
+			let mut evs = evs;
+			evs.push(format!("accept response {acc}; unsubscribe responses {first} / {second}"));
+			Ok::<(Value, Value, Vec<String>), String>((first["result"].clone(), second["result"].clone(), evs))
+		});
+		match res {
+			Err(e) => return json!({"probe":"accept_then_immediate_unsubscribe","error":e}),
+			Ok((first, second, evs)) => {
+				if first != json!(true) || second != json!(false) {
+					wrong.push(format!("round {round}: first unsubscribe -> {first}, repeat -> {second}; handler events: {evs:?}"));
+					if wrong.len() >= 3 { break; }
+				}
+			}
+		}
+	}
+	if wrong.is_empty() {
+		json!({"probe":"accept_then_immediate_unsubscribe","disagrees":false,"histories_tried":rounds,"bound":"150 rounds, each on a fresh 2-thread runtime / server / connection: subscribe, unsubscribe at once, unsubscribe again"})
+	} else {
+		json!({"probe":"accept_then_immediate_unsubscribe","disagrees":true,"input":"subscribe, read the accepting response, unsubscribe that id at once, unsubscribe it again","observed":wrong,
+			"expected":"true then false, in every round","bound":"150 rounds, each on a fresh 2-thread runtime / server / connection"})
+	}
+}
+
+// ------------------------------------------------------------------------------------------
 /// C04: once a subscription is closed by a successful unsubscribe its sink stays closed — even if a LATER subscription on the
 /// same connection is given the same id by the id provider. Real WS server, raw frames.
 pub fn subscription_id_reuse() -> Value {
